@@ -103,4 +103,19 @@ def uniqT (c : Nat) : M (List Int) :=
     | some i => ([src i], src i :: seen, i + 1)
     | none => ([], seen, p + c)⟩
 
+/-- length of the run of items equal to `v` starting at `p`, looking at most `c` items ahead -/
+def runLen (src : Nat → Int) (v : Int) : Nat → Nat → Nat
+  | 0, _ => 0
+  | c + 1, p => if src p = v then runLen src v c (p + 1) + 1 else 0
+
+/-- group consecutive equal items (`Ġ`): `prev = lhs[0]; for item in lhs[1:]: if item != prev: yield [prev] * n; prev = item …` —
+    a group is handed out when the first *different* item has been pulled; that item starts the next group.
+    `c` bounds the length of a run (beyond it the model cuts the run). -/
+def groupT (c : Nat) : M (Option Int) :=
+  ⟨none, fun st src p =>
+    let first := match st with | some v => v | none => src p
+    let p1 := match st with | some _ => p | none => p + 1
+    let k := runLen src first c p1
+    (List.replicate (k + 1) first, some (src (p1 + k)), p1 + k + 1)⟩
+
 end Str
